@@ -155,7 +155,7 @@ Definition rotate_left {A} (l : list A) (n : nat) : list A := skipn n l ++ first
 Definition rotate_right {A} (l : list A) (n : nat) : list A := rotate_left l (length l - n).
 
 (* the code: returns (what self keeps, the split-off box) *)
-Definition split_off_code (l : list nat) (a b : nat) : list nat * list nat :=
+Definition split_off_code {A} (l : list A) (a b : nat) : list A * list A :=
   let len := length l in
   if b =? len then (firstn a l, skipn a l)
   else if a =? 0 then (skipn b l, firstn b l)
